@@ -1029,13 +1029,20 @@ func Run(cfg hx.Config) (*hx.Meta, error) {
 
 	var jobsMu sync.Mutex
 	var jobs []crashJob
-	hx.Parallel(len(hists), 16, func(hi int) {
+	// every history is walked twice, independently: without flags (first half of the index space) and
+	// under -autoname/-dedup (second half)
+	hx.Parallel(2*len(hists), 16, func(idx int) {
+		hi := idx % len(hists)
+		underFlags := idx >= len(hists)
 		h := hists[hi]
 		dir := filepath.Join(cfg.Work, fmt.Sprintf("hist%d", hi))
 		var prev outcome  // what derived.gen.go holds before the step
 		var prevF outcome // the same for the chain of runs under -autoname/-dedup
 		dirF := filepath.Join(cfg.Work, fmt.Sprintf("hist%d-flags", hi))
 		for si, v := range h.vers {
+			if underFlags {
+				break
+			}
 			sdir := filepath.Join(cfg.Work, fmt.Sprintf("hist%d-scratch%d", hi, si))
 			s := runIn(cfg, sdir, v, nil, false)
 			mode := hi % 4
@@ -1092,7 +1099,11 @@ func Run(cfg hx.Config) (*hx.Meta, error) {
 			// the next step starts from whatever is on disk now
 			b, err := os.ReadFile(filepath.Join(pkgDir(dir, mode), "derived.gen.go"))
 			prev = outcome{exists: err == nil, bytes: b}
-
+		}
+		for si, v := range h.vers {
+			if !underFlags {
+				break
+			}
 			// The same step under -autoname / -dedup ("from scratch for the current sources AND FLAGS"): a chain
 			// of its own, whose scratch copy runs with the same flags.  Where no call had to be renamed the
 			// flags change nothing and the model applies; where calls were renamed (the user's files are
